@@ -3,7 +3,29 @@
 import json
 from . import core
 from .sx import show, skeleton
-from .ref_scheme import Machine, SErr, OutOfModel, all_strategies, match_value, match_error, VOID, display_text
+from .ref_scheme import Machine, SErr, OutOfModel, all_strategies, match_value, match_error, VOID, display_text, VecObj, Pair
+
+
+def freeze(v, memo=None):
+    """snapshot of a model value at this point of the history (vectors are mutable objects): same idents, copied contents"""
+    if isinstance(v, VecObj):
+        memo = memo if memo is not None else {}
+        if id(v) in memo:
+            return memo[id(v)]
+        c = VecObj([], v.mutable, v.ident)
+        memo[id(v)] = c
+        c.items = [freeze(x, memo) for x in v.items]
+        return c
+    if isinstance(v, Pair):
+        memo = memo if memo is not None else {}
+        items, t = [], v
+        while isinstance(t, Pair):
+            items.append(freeze(t.car, memo)); t = t.cdr
+        r = freeze(t, memo)
+        for x in reversed(items):
+            r = Pair(x, r)
+        return r
+    return v
 
 
 def model_run(forms, strategy, machine=None, with_out=False):
@@ -14,7 +36,7 @@ def model_run(forms, strategy, machine=None, with_out=False):
         m.trace = []; m.out = []
         try:
             v = m.eval_toplevel(f)
-            res.append(("ok", v, list(m.trace), "".join(m.out)))
+            res.append(("ok", freeze(v), [freeze(t) for t in m.trace], "".join(m.out)))
         except SErr as e:
             res.append(("err", e.kind, list(m.trace), "".join(m.out)))
         except RecursionError:
